@@ -196,6 +196,8 @@ def run(ctx):
     # with C17 (quantise before splitting, hours mod 24 after rounding)
     from .c17 import sexagesimal
     sexagesimal(ctx, prog, prog.module("angle_tools"), R4="C03-R12", R5="C03-R13")
+    from .c17 import r12_formatters
+    r12_formatters(ctx, prog, "C03-R19")
     # ---------------------------------------------------------------- R10
     g = callgraph.build(prog)
     reach = callgraph.reachable(g, [PKG + "." + d for d in DRIVERS])
